@@ -751,16 +751,6 @@ Proof.
     inversion H; subst. simpl. f_equal. apply IH. reflexivity.
 Qed.
 
-(* UNSET anywhere in a tree (model fields included) *)
-Fixpoint has_unset (t : vt) : bool :=
-  match t with
-  | VUnset => true
-  | VList l => existsb has_unset l
-  | VDict kv => existsb (fun q => has_unset (snd q)) kv
-  | VModel fs => existsb (fun q => has_unset (snd q)) fs
-  | _ => false
-  end.
-
 (* whatever json.dumps manages to encode contains no UNSET (and no Upload) *)
 Lemma to_json_no_unset t : forall j, to_json t = Some j -> has_unset t = false.
 Proof.
@@ -928,4 +918,148 @@ Lemma render_injective p p' : keys_dot_free p = true -> keys_dot_free p' = true 
 Proof.
   intros D D' H. rewrite !render_as_concat in H. apply sappend_cancel_l in H.
   apply tail_inj; auto using segs_dot_free.
+Qed.
+
+(* ================= Upload anywhere => multipart (after /repo dd85cf5) ================= *)
+(* a tree json.dumps can encode once its Uploads are nulled: no UNSET, no model left *)
+Fixpoint plain (t : vt) : bool :=
+  match t with
+  | VUnset => false
+  | VModel _ => false
+  | VList l => forallb plain l
+  | VDict kv => forallb (fun q => plain (snd q)) kv
+  | _ => true
+  end.
+
+Lemma plain_dumpv t : has_unset t = false -> plain (dumpv t) = true.
+Proof.
+  induction t using vt_ind2; intro U; simpl in *; try reflexivity; try discriminate.
+  - apply forallb_forall. intros y Iy. apply in_map_iff in Iy as [x [E Ix]]. subst y.
+    rewrite Forall_forall in H. apply H; auto. apply (existsb_false_all _ _ U x Ix).
+  - apply forallb_forall. intros y Iy. apply in_map_iff in Iy as [[k x] [E Ix]]. subst y. simpl.
+    rewrite Forall_forall in H. apply (H (k, x) Ix). apply (existsb_false_all _ _ U (k, x) Ix).
+  - induction H as [|[f x] r Hx Hr IH]; simpl in *; [reflexivity|].
+    apply orb_false_iff in U as [U1 U2]. destruct (mf_set f); simpl; [rewrite (Hx U1)|]; apply IH; exact U2.
+Qed.
+
+Lemma plain_convert t : has_unset t = false -> plain (convert_value t) = true.
+Proof.
+  induction t using vt_ind2; intro U; try reflexivity; try discriminate.
+  - simpl in *. apply forallb_forall. intros y Iy. apply in_map_iff in Iy as [x [E Ix]]. subst y.
+    rewrite Forall_forall in H. apply H; auto. apply (existsb_false_all _ _ U x Ix).
+  - simpl in *. apply forallb_forall. intros y Iy. apply in_map_iff in Iy as [[k x] [E Ix]]. subst y. simpl.
+    rewrite Forall_forall in H. apply (H (k, x) Ix). apply (existsb_false_all _ _ U (k, x) Ix).
+  - apply (plain_dumpv (VModel fs) U).
+Qed.
+
+Fixpoint to_json_l (l : list vt) : option (list json) :=
+  match l with
+  | [] => Some []
+  | x :: r => match to_json x, to_json_l r with Some a, Some b => Some (a :: b) | _, _ => None end
+  end.
+Lemma to_json_list l : to_json (VList l) = option_map JArr (to_json_l l).
+Proof. reflexivity. Qed.
+
+Lemma plain_serialisable t : plain t = true -> exists j, to_json (null_uploads t) = Some j.
+Proof.
+  induction t using vt_ind2; intro P; try (simpl; eauto; fail); try discriminate.
+  - cbn [null_uploads]. rewrite to_json_list. simpl in P.
+    assert (exists js, to_json_l (map null_uploads l) = Some js) as [js E].
+    { induction H as [|x r Hx Hr IH]; simpl in *; [eauto|].
+      apply andb_true_iff in P as [P1 P2]. destruct (Hx P1) as [a Ea]. destruct (IH P2) as [b Eb].
+      rewrite Ea, Eb. eauto. }
+    rewrite E. simpl. eauto.
+  - cbn [null_uploads]. rewrite to_json_dict. simpl in P.
+    assert (exists js, to_json_kv (map (fun q : string * vt => let (k, v) := q in (k, null_uploads v)) kv) = Some js)
+      as [js E].
+    { induction H as [|[k x] r Hx Hr IH]; simpl in *; [eauto|].
+      apply andb_true_iff in P as [P1 P2]. destruct (Hx P1) as [a Ea]. destruct (IH P2) as [b Eb].
+      rewrite Ea, Eb. eauto. }
+    rewrite E. simpl. eauto.
+Qed.
+
+(* conversion loses no Upload: the uploads separate_files can reach in the converted value are
+   exactly the Upload objects anywhere in the original, in the same order *)
+Lemma ids_dumpv t : forall p, map snd (uploads_at p (dumpv t)) = deep_ids t.
+Proof.
+  induction t using vt_ind2; intro p; simpl; try reflexivity.
+  - generalize 0. induction H as [|x r Hx Hr IH]; intro i; simpl; [reflexivity|].
+    rewrite map_app, Hx, IH. reflexivity.
+  - induction H as [|[k x] r Hx Hr IH]; simpl in *; [reflexivity|].
+    rewrite map_app, Hx, IH. reflexivity.
+  - induction H as [|[f x] r Hx Hr IH]; simpl in *; [reflexivity|].
+    destruct (mf_set f); simpl; [rewrite map_app, Hx, IH | rewrite IH]; reflexivity.
+Qed.
+
+Lemma ids_convert t : forall p, map snd (uploads_at p (convert_value t)) = deep_ids t.
+Proof.
+  induction t using vt_ind2; intro p; try reflexivity.
+  - simpl. generalize 0. induction H as [|x r Hx Hr IH]; intro i; simpl; [reflexivity|].
+    rewrite map_app, Hx, IH. reflexivity.
+  - simpl. induction H as [|[k x] r Hx Hr IH]; simpl in *; [reflexivity|].
+    rewrite map_app, Hx, IH. reflexivity.
+  - apply (ids_dumpv (VModel fs)).
+Qed.
+
+Definition all_upload_ids (vars : list (string * vt)) : list nat :=
+  flat_map (fun q : string * vt => deep_ids (snd q)) vars.
+
+Lemma ids_convert_dict vars p :
+  map snd (ups_dict uploads_at p (convert_dict vars)) = all_upload_ids vars.
+Proof.
+  unfold convert_dict, all_upload_ids. induction vars as [|[k v] r IH]; [reflexivity|]. cbn [filter snd].
+  destruct (is_unset v) eqn:Uv; cbn [negb].
+  - destruct v; try discriminate. simpl. exact IH.
+  - cbn [map fst snd ups_dict flat_map]. rewrite map_app, ids_convert, IH. reflexivity.
+Qed.
+
+Lemma plain_convert_dict vars : vars_ok vars = true -> plain (VDict (convert_dict vars)) = true.
+Proof.
+  unfold vars_ok, convert_dict. cbn [plain]. induction vars as [|[k v] r IH]; intro O; [reflexivity|].
+  cbn [forallb snd] in O. apply andb_true_iff in O as [O1 O2]. cbn [filter snd].
+  destruct (is_unset v); cbn [negb orb] in *; [apply IH; exact O2|].
+  cbn [map forallb fst snd]. apply negb_true_iff in O1. rewrite (plain_convert v O1). apply IH. exact O2.
+Qed.
+
+Lemma upload_anywhere url q o vars h t : vars_ok vars = true ->
+  let c := mk_call q o (Some vars) h t in
+  let ct := VDict (convert_dict vars) in
+  map snd (uploads_at [] ct) = all_upload_ids vars /\
+  exists files fmap vj,
+    separate [] ct ([], []) = (null_uploads ct, (files, fmap)) /\
+    NoDup files /\ (forall id, In id files <-> In id (all_upload_ids vars)) /\
+    fmap = expected_map (uploads_at [] ct) files 0 /\
+    to_json (null_uploads ct) = Some vj /\
+    (all_upload_ids vars = [] ->
+       build_request url c = RJson url (merge_headers (match h with Some x => x | None => [] end)) t (body_json q o vj)) /\
+    (all_upload_ids vars <> [] ->
+       build_request url c = RMultipart url h t (body_json q o vj) (fmap_json fmap) (files_parts files)).
+Proof.
+  intro O. cbv zeta.
+  assert (I : map snd (uploads_at [] (VDict (convert_dict vars))) = all_upload_ids vars)
+    by (apply ids_convert_dict).
+  split; [exact I|].
+  destruct (separate_characterised (VDict (convert_dict vars)) []) as [files [fmap [E [ND [M F]]]]].
+  destruct (plain_serialisable _ (plain_convert_dict vars O)) as [vj T].
+  exists files, fmap, vj. rewrite I in M.
+  split; [exact E|]. split; [exact ND|]. split; [exact M|]. split; [exact F|]. split; [exact T|].
+  assert (B : build_request url (mk_call q o (Some vars) h t) =
+              if negb (is_nil files) && negb (is_nil fmap)
+              then RMultipart url h t (body_json q o vj) (fmap_json fmap) (files_parts files)
+              else RJson url (merge_headers (match h with Some x => x | None => [] end)) t (body_json q o vj)).
+  { unfold build_request. cbn [c_vars c_headers c_timeout c_query c_opname].
+    destruct vars as [|p0 r0].
+    - simpl in E. inversion E; subst files fmap. simpl in T. inversion T; subst vj. reflexivity.
+    - rewrite process_some by discriminate. rewrite get_files_spec, E.
+      cbn [null_uploads] in T |- *. rewrite T. reflexivity. }
+  assert (Z : files = [] <-> all_upload_ids vars = []).
+  { split; intro Hn.
+    - destruct (all_upload_ids vars) as [|x r]; [reflexivity|]. exfalso.
+      assert (In x files) by (apply M; left; reflexivity). rewrite Hn in H. destruct H.
+    - destruct files as [|x r]; [reflexivity|]. exfalso.
+      assert (In x (all_upload_ids vars)) by (apply M; left; reflexivity). rewrite Hn in H. destruct H. }
+  split; intro Hn.
+  - rewrite B. rewrite (proj2 Z Hn). reflexivity.
+  - rewrite B. destruct files as [|x r]; [exfalso; apply Hn; apply Z; reflexivity|].
+    subst fmap. reflexivity.
 Qed.
